@@ -71,8 +71,19 @@ def run_txn(res, tier, seed, model_ok, search):
         ops_log = []
         is_betdaq = exch == "betdaq"
         pkg_cls = BetdaqOrderPackage if is_betdaq else BetfairOrderPackage
-        with market.transaction(client=client) as t:
+        # with some probability the with-block is left by an exception after the last request (a rejected request the
+        # strategy does not catch): everything accepted before must still be delivered, exactly once
+        boom_after = rng.randrange(1, n_total + 1) if (n_total and rng.random() < 0.25) else None
+
+        class Boom(Exception):
+            pass
+
+        import contextlib
+        with contextlib.suppress(Boom), market.transaction(client=client) as t:
             for i in range(n_total):
+                if boom_after is not None and i == boom_after:
+                    ops_log.append(("EXEC",))       # leaving the block flushes what is pending
+                    raise Boom()
                 kind = rng.choice(["PLACE", "PLACE", "CANCEL", "UPDATE", "REPLACE"])
                 if is_betdaq and kind in ("REPLACE",):
                     kind = "CANCEL"
